@@ -231,6 +231,8 @@ func c03Run(c fw.Case) fw.Verdict {
 			}
 			x.p.Track(s)
 			*x.s = s
+			st := s
+			e.OnClose(func() { _ = st.Close() })
 		}
 		if ac == "orbitdb" {
 			// every controller instance has its own admin (the opener); only the explicit write list is judged
